@@ -5,6 +5,8 @@ package main
 import (
 	"fmt"
 	"go/types"
+	"os"
+	"strconv"
 	"sort"
 	"strings"
 )
@@ -67,6 +69,15 @@ type PathSample struct {
 	Model     []string   `json:"model,omitempty"`
 	Vector    []InputRec `json:"vector,omitempty"`
 }
+
+// debugging aids: GOSMT_TRACECAP raises the per-path trace limit, GOSMT_TRACEFILTER keeps only matching lines
+var traceCap, traceFilter = func() (int, string) {
+	n := 400
+	if v, err := strconv.Atoi(os.Getenv("GOSMT_TRACECAP")); err == nil && v > 0 {
+		n = v
+	}
+	return n, os.Getenv("GOSMT_TRACEFILTER")
+}()
 
 type pathEnd struct {
 	status string
@@ -284,8 +295,12 @@ func concretizeInt(x value, kind string) value {
 }
 
 func (p *pathState) tracef(format string, args ...interface{}) {
-	if len(p.tracelog) < 400 {
-		p.tracelog = append(p.tracelog, fmt.Sprintf(format, args...))
+	if len(p.tracelog) < traceCap {
+		line := fmt.Sprintf(format, args...)
+		if traceFilter != "" && !strings.Contains(line, traceFilter) {
+			return
+		}
+		p.tracelog = append(p.tracelog, line)
 	}
 }
 
